@@ -539,6 +539,15 @@ pub mod r#async {
         }
     }
 
+    #[cfg(wtransport_verif)]
+    impl<R: ?Sized> Drop for GetVarint<'_, R> {
+        fn drop(&mut self) {
+            if self.offset > 0 && self.offset < self.varint_size {
+                crate::verif::torn_read();
+            }
+        }
+    }
+
     /// [`Future`] for reading a buffer of bytes.
     ///
     /// Created by [`BytesReaderAsync::get_buffer`].
@@ -590,6 +599,15 @@ pub mod r#async {
             }
 
             Poll::Ready(Ok(()))
+        }
+    }
+
+    #[cfg(wtransport_verif)]
+    impl<R: ?Sized> Drop for GetBuffer<'_, R> {
+        fn drop(&mut self) {
+            if self.offset > 0 && self.offset < self.buffer.len() {
+                crate::verif::torn_read();
+            }
         }
     }
 
